@@ -256,7 +256,7 @@ def attr_value(rng, name):
         return v
     if base == 'type':
         return rng.choice(['text', 'password', 'PASSWORD', 'Pass&#119;ord', 'checkbox', ' password', 'passwŏrd',
-                           'hidden', 'paſſword'])
+                           'hidden', 'paſſword', password_refs(rng), password_refs(rng)])
     if base.startswith('on'):
         return rng.choice(['alert(1)', 'x()', 'javascript:alert(1)'])
     return rng.choice(['x', '', 'a b', '<script>', '"', "'", '&', bad_refs(rng), 'javascript:alert(1)', '&lt;b&gt;',
@@ -402,6 +402,23 @@ def raw_qname(rng, pool, unsafe_pool):
                       if ODD_NAMES else []))
 
 
+def password_refs(rng):
+    """`password` with some letters as character references, wrapped in 0-3 layers of `&amp;`
+    (the rule of is_safe_elem must see the value the attribute loop emits: C06-password-reference)"""
+    word = rng.choice(['password', 'PASSWORD', 'PassWord', 'password ', 'passwor', 'xpassword'])
+    out = []
+    for ch in word:
+        r = rng.random()
+        if r < 0.3:
+            out.append(rng.choice(['&#%d;', '&#x%x;', '&#X%X;', '&#%d']) % ord(ch))
+        else:
+            out.append(ch)
+    v = ''.join(out)
+    for _ in range(rng.choice([0, 0, 1, 1, 2, 3])):
+        v = v.replace('&', '&amp;')
+    return v
+
+
 def raw_attr_value(rng, name):
     """raw streams carry decoded values, but the sanitizer decodes once more"""
     return attr_value(rng, name)
@@ -414,7 +431,7 @@ def raw_node(rng, depth):
         # an element that is unsafe only through an attribute (input type=password), with safe
         # elements of the same name nested in it and content after them: the dropping state must
         # count same-name STARTs whether or not they are safe by themselves (seeded change C06-2)
-        pw = rng.choice(['password', 'PASSWORD', 'Password'])
+        pw = rng.choice(['password', 'PASSWORD', 'Password', password_refs(rng), password_refs(rng)])
         # the rule looks at QName.localname: also `input` in a namespace, in the EMPTY namespace
         # ('}input' = '{}input') and spelled '{input' (= plain input)
         itag = rng.choice([('', 'input')] * 4 + [('', '}input'), ('u', 'input'), ('http://www.w3.org/1999/xhtml', 'input'),
@@ -460,7 +477,7 @@ def raw_node(rng, depth):
             # a `>` in the name or an identifier (a system identifier may hold it in XML): an HTML
             # parser ends the declaration there (finding C06-doctype-markup, repaired); also quotes
             evil = rng.choice(['x\'><script>alert(1)</script>', 'x"><script>alert(1)</script>', '>', 'a>b', 'p"q', "p'q\"r",
-                               '><img src=x onerror=alert(1)>'])
+                               '><img src=x onerror=alert(1)>', 'a"b', "it's", '"', "''\"", 'x" SYSTEM "y'])
             k = rng.randrange(3)
             return ('leaf', ('DT', evil if k == 0 else 'html', evil if k == 1 else rng.choice([None, '-//W3C//DTD XHTML 1.0 Strict//EN']),
                              evil if k == 2 else rng.choice([None, 'x.dtd'])))
